@@ -294,6 +294,27 @@ func channelWindow(id bin.Bin128, delta int32) []byte {
 	return mustMsg(pmpx.BuildChannelWindow(pmpx.NewMessageWriter(), id, delta))
 }
 
+// requestUnderCode is a message whose code is NOT connect_request but which carries a well-formed
+// connect_request field with the supported version: what a frame is, is said by its code.
+func requestUnderCode(code pmpx.Code) []byte {
+	w := pmpx.NewMessageWriter()
+	w.Code(code)
+	w1 := w.ConnectRequest()
+	w2 := w1.Versions()
+	w2.Add(v10)
+	if err := w2.End(); err != nil {
+		fail("build: %v", err)
+	}
+	w3 := w1.Compression()
+	if err := w3.End(); err != nil {
+		fail("build: %v", err)
+	}
+	if err := w1.End(); err != nil {
+		fail("build: %v", err)
+	}
+	return mustMsg(w.Build())
+}
+
 func unknownCode(code int) []byte {
 	w := pmpx.NewMessageWriter()
 	w.Code(pmpx.Code(code))
@@ -649,6 +670,10 @@ func c11Scripts(thorough bool) []c11Script {
 		return mustMsg(pmpx.BuildConnectResponse(v10, pmpx.ConnectCompression_None))
 	}))
 	add("line-then-unknown-code", afterLine(func(r *hx.Rand) []byte { return unknownCode(99) }))
+	add("line-then-request-under-code-99", afterLine(func(r *hx.Rand) []byte { return requestUnderCode(99) }))
+	add("line-then-request-under-code-open", afterLine(func(r *hx.Rand) []byte { return requestUnderCode(pmpx.Code_ChannelOpen) }))
+	add("line-then-request-under-code-response", afterLine(func(r *hx.Rand) []byte { return requestUnderCode(pmpx.Code_ConnectResponse) }))
+	add("line-then-request-under-code-0", afterLine(func(r *hx.Rand) []byte { return requestUnderCode(0) }))
 	add("versions-none", refusedVersions(nil))
 	add("versions-0", refusedVersions([]pmpx.Version{0}))
 	add("versions-11", refusedVersions([]pmpx.Version{11}))
